@@ -226,6 +226,24 @@ func (s *nst) assumeLe(e linexp) {
 	s.tighten()
 }
 
+// sumGhost: x <= y - k where y is (by an equality) a difference A - B + k2, e.g. the length of Input[B:]: remember
+// the sum x + B as a ghost bounded by A, so that a later `cursor = B + x` is bounded too.
+func (s *nst) sumGhost(x, y string, k int64) {
+	if !strings.HasPrefix(x, "v:") || y == "" || !(strings.HasPrefix(y, "len:") || strings.HasPrefix(y, "v:")) {
+		return
+	}
+	r := s.k.reduce(lvar(y))
+	if a, b, k2, ok2 := diffForm(r); ok2 && a != "" && b != "" && a != x && b != x {
+		// named after the frame of x so that it is dropped when that frame returns
+		g := "g:" + strings.TrimPrefix(x, "v:") + ":sum:" + b
+		if _, has := s.z.lookup(g); has {
+			return
+		}
+		s.assign(g, lvar(x).plus(lvar(b)), nil)
+		s.z.add(g, a, k2-k)
+	}
+}
+
 func (s *nst) assumeLe0(e linexp) {
 	if e.isConst() {
 		if e.k.n > 0 {
@@ -238,15 +256,7 @@ func (s *nst) assumeLe0(e linexp) {
 		s.z.add(x, y, -k)
 		// x <= y - k where y is (by an equality) a difference A - B + k2, e.g. the length of Input[B:]:
 		// remember the sum x + B as a ghost bounded by A, so that a later `cursor = B + x` is bounded too
-		if strings.HasPrefix(x, "v:") && y != "" && (strings.HasPrefix(y, "len:") || strings.HasPrefix(y, "v:")) {
-			r := s.k.reduce(lvar(y))
-			if a, b, k2, ok2 := diffForm(r); ok2 && a != "" && b != "" && a != x && b != x {
-				// named after the frame of x so that it is dropped when that frame returns
-				g := "g:" + strings.TrimPrefix(x, "v:") + ":sum:" + b
-				s.assign(g, lvar(x).plus(lvar(b)), nil)
-				s.z.add(g, a, k2-k)
-			}
-		}
+		s.sumGhost(x, y, k)
 		// a bound on a variable that the equalities express through several others (the length of Input[end:] while
 		// end is tied to the rune cursor) must reach those others too: fall through to the reduced form
 		if y == "" || x == "" {
@@ -491,6 +501,15 @@ func (s *nst) assign(x string, e linexp, important []string) {
 		}
 		if b.lb > -inf {
 			s.z.add(b.y, x, -b.lb)
+		}
+	}
+	// x <= y + ub where y is a remainder length: keep the sum with the cursor bounded (a count computed as
+	// len(rest) - len(trimmed) is at most len(rest))
+	if strings.HasPrefix(x, "v:") && !strings.HasPrefix(x, "g:") {
+		for _, b := range bds {
+			if b.ub < inf && (strings.HasPrefix(b.y, "len:") || strings.HasPrefix(b.y, "v:")) && b.y != x {
+				s.sumGhost(x, b.y, -b.ub)
+			}
 		}
 	}
 }
